@@ -462,7 +462,8 @@ for _p, _g in CODE_TIE.items():
 # the properties stated about the source: compositions of the ties with the model_holds theorems (Properties/OnCode*.lean)
 ON_CODE = {'C05': ['Client'], 'C06': ['Client'], 'C14': ['Client'], 'C07': ['Extract', 'Updater'], 'C10': ['Extract'],
            'C08': ['Dispatch'], 'C09': ['Dispatch'], 'C19': ['Drift', 'Updater'],
-           'C01': ['Client', 'Extract', 'Updater', 'Dispatch', 'Drift']}
+           'C01': ['Client', 'Extract', 'Updater', 'Dispatch', 'Drift'],
+           'C15': ['Threads']}
 for _p, _g in ON_CODE.items():
     if _p in PROPS:
         PROPS[_p]['code_tie'] = PROPS[_p].get('code_tie', []) + [f'ClockBound.Properties.OnCode{_x}' for _x in _g]
